@@ -6,7 +6,7 @@ set -u
 DIR="$1"; ID="$2"; TIER="${3:-quick}"; shift 3 2>/dev/null || shift $#
 SEEDS="${*:-1 2}"
 P="$DIR/patch.diff"; [ -f "$DIR/patch.rebased.diff" ] && P="$DIR/patch.rebased.diff"
-S=/tmp/seedrun
+S=${SEEDRUN_DIR:-/tmp/seedrun}
 mkdir -p $S
 if [ ! -d $S/repo ]; then git -C /repo worktree add -q --detach $S/repo HEAD || exit 2; fi
 git -C $S/repo checkout -q --detach "$(git -C /repo rev-parse HEAD)" || exit 2
